@@ -495,15 +495,33 @@ func genC06(rt *rapid.T, st *Stats) *Case {
 	// LayerSpacing 0 (bands touch) is inside the property and a boundary the orthogonal router treats specially
 	// (seeded/r4-m06). Only the polyline clause needs bands derived from Y ("one bend per intermediate band"): there
 	// touching bands are fine as long as no band can have height 0, otherwise the spacing is redrawn positive.
-	if c.Rt == RtPolyline && c.LayerSpacing() == 0 {
-		for _, id := range NodeIDs(c.Edges) {
-			if c.ConfiguredSize(id).H == 0 {
-				c.LS = ptr(genDim(rt, "ls_pos", false))
-				break
-			}
+	if c.Rt == RtPolyline && c.Virt && !hasHelperLikeID(c.Edges) && c.Sizes != nil && chance(rt, "flat_drawing", 1, 12) {
+		// the fully collapsed drawing: LayerSpacing 0 and every node of height 0 - all layers on one line
+		c.LS = ptr(0.0)
+		c.Fixed.H = 0
+		for id, sz := range c.Sizes {
+			c.Sizes[id] = Sz{sz.W, 0}
+		}
+	}
+	if c.Rt == RtPolyline && c.LayerSpacing() == 0 && anyZeroHeight(c) {
+		// ... except that with the helper nodes in the output the clause "one helper node per bend, at the bend's x" needs
+		// no bands at all: half of these cases keep the collapsed bands (LayerSpacing 0 AND zero-height layers - bends of
+		// consecutive bands may then coincide exactly; seeded/r7-m06 dropped "duplicate" points) and are judged by that
+		// clause, by monotone y and by bends-outside-nodes only.
+		if !(c.Virt && !hasHelperLikeID(c.Edges) && rapid.Bool().Draw(rt, "keep_collapsed_bands")) {
+			c.LS = ptr(genDim(rt, "ls_pos", false))
 		}
 	}
 	return c
+}
+
+func anyZeroHeight(c *Case) bool {
+	for _, id := range NodeIDs(c.Edges) {
+		if c.ConfiguredSize(id).H == 0 {
+			return true
+		}
+	}
+	return false
 }
 
 func checkC06(c *Case) *Outcome {
@@ -525,6 +543,9 @@ func checkC06(c *Case) *Outcome {
 	}
 	maxSpan := 0
 	var bendX []float64
+	// collapsed bands: LayerSpacing 0 and zero-height nodes - different layers may share a Y, spans cannot be read off
+	collapsed := c.Rt == RtPolyline && c.LayerSpacing() == 0 && anyZeroHeight(c)
+	o.classIf(collapsed, "collapsed_bands")
 	for _, e := range l.Edges {
 		if e.FromID == e.ToID {
 			continue
@@ -540,7 +561,7 @@ func checkC06(c *Case) *Outcome {
 				return o.failf("straight route of %q->%q has %d points", e.FromID, e.ToID, len(e.Points))
 			}
 		case RtPolyline:
-			if span >= 1 && len(e.Points) != span+1 {
+			if !collapsed && span >= 1 && len(e.Points) != span+1 {
 				return o.failf("polyline route of %q->%q spans %d bands but has %d points (want one bend per intermediate band)", e.FromID, e.ToID, span, len(e.Points))
 			}
 			for i := 1; i < len(e.Points); i++ {
